@@ -14,7 +14,7 @@
 // wrapper: 0 plain, 1 init, 2 dont_move, 3 init_dont_move, 4 skip
 //
 // Answer: ev=<event;event;...> st=<ok|ASSERT|UB|FAULT|BAD> buf=<hex>
-// event: <path>=<v<hex>|a<addr>|e<addr>|->@<cursor offset|null>; the list ends
+// event: <path>=<v<hex>|a<addr>|e<addr>|n<range size>|x<0|1 iterator at end()>|->@<cursor offset|null>; the list ends
 // with end@<cursor> on normal completion.
 #pragma once
 #include "gen_driver.hpp"
@@ -105,6 +105,8 @@ void run_ranges(GV gv, ctx& x, const std::string& gpath, std::size_t nranges, Bo
                   : kind == 1 ? gv.cursor_subrange(x.c, static_cast<size_type>(pos))
                               : gv.cursor_subrange(
                                     x.c, static_cast<size_type>(pos), static_cast<size_type>(cnt));
+        // the range object: its size()
+        x.ev(gpath + "#" + std::to_string(ri), "n" + std::to_string(static_cast<unsigned long long>(rg.size())));
         auto it = rg.begin();
         const auto en = rg.end();
         const std::size_t start = kind == 0 ? 0 : static_cast<std::size_t>(pos);
@@ -124,6 +126,8 @@ void run_ranges(GV gv, ctx& x, const std::string& gpath, std::size_t nranges, Bo
                 skip_items(x.tq, nitems);
             }
         }
+        // after the loop: has the iterator reached end()?
+        x.ev(gpath + "#" + std::to_string(ri) + "end", it == en ? "x1" : "x0");
     }
 }
 
